@@ -5,7 +5,7 @@
               G the GetManagedObjects replies there, E per path '-' no manager / '=' / '!'
    spec:    "E!free": no step shows '!' (props/C25.py evaluates it on the harness output)
    class:   first known-deviation class of the history, or '-'                                  *)
-From ZV Require Import Base.Bytes Base.Res C24.Ops C24.Model C24.Run C25.Model C25.Spec.
+From ZV Require Import Base.Bytes Base.Res C24.Ops C24.Model C24.Run C25.Model C25.Spec C25.System.
 
 Definition path_text (p : path) : bytes :=
   match p with [] => B "/" | _ => flat_map (fun s => B "/" ++ s) p end.
@@ -26,7 +26,7 @@ Definition kset_text (ks : list iface) : bytes :=
 
 Definition signal_text (s : signal) : bytes :=
   match s with
-  | SAdded m o ifs => B "A" ++ path_text m ++ B ">" ++ path_text o ++ B "=" ++ ifmap_text (fold_left if_put ifs [])
+  | SAdded m o ifs => B "A" ++ path_text m ++ B ">" ++ path_text o ++ B "=" ++ ifmap_text ifs
   | SRemoved m o ks => B "R" ++ path_text m ++ B ">" ++ path_text o ++ B "=" ++ kset_text ks
   end.
 
@@ -60,14 +60,12 @@ Definition step_text (vs : views) (w : wstep) : bytes :=
                               end) upaths in
   res_tok (w_res w) ++ B "|" ++ s ++ B "|" ++ v ++ B "|" ++ g ++ B "|" ++ e.
 
-Definition answers (t : node) (m : path) : bool := match listing t m with Some _ => true | None => false end.
-
 Fixpoint trace25 (vs : views) (ws : list wstep) : list bytes :=
   match ws with
   | [] => []
   | w :: r =>
       let vs1 := apply_signals vs (w_signals w) in
-      step_text vs1 w :: trace25 (filter (fun e => answers (w_tree w) (fst e)) vs1) r
+      step_text vs1 w :: trace25 (observe_step vs (w_signals w) (answers (w_tree w))) r
   end.
 
 Definition class25_tok (d : option dev25) : bytes :=
